@@ -267,6 +267,15 @@ func Run(t *testing.T, cfg Config, sched *Tape, body func()) (s *Sim) {
 	synctest.Test(t, func(t *testing.T) {
 		RaceDisable()
 		s.kick = make(chan struct{}, 1)
+		// the simulated clock of a bubble starts at a fixed instant (2000-01-01): move it by a seeded
+		// amount, so that code which looks at the date or at absolute time sees different days, a
+		// leap day now and then, and instants beyond 2038
+		switch sched.Choose(3) {
+		case 1:
+			time.Sleep(time.Duration(sched.Choose(86400)) * time.Second)
+		case 2:
+			time.Sleep(time.Duration(sched.Choose(50*365)) * 24 * time.Hour)
+		}
 		s.start = time.Now()
 		cur.Store(s)
 		root := &Task{id: []int{0}, Key: keyOf([]int{0}), wake: make(chan struct{})}
